@@ -28,7 +28,7 @@ class S(D.Spec):
     no_longer_checked = "correspondence Mon.MonDuo.chk_duo (model Conn.Step.step vs both GenericConnection objects, full digest)"
 
     def gen(self, tier, seed, out_path, stats_path, search=False):
-        n = 1500 if tier == "quick" else 60000
+        n = 5000 if tier == "quick" else 100000
         if search:
             n *= 3
         C.harness(["conn-duo", "--seed", seed, "--n", n, "--out", out_path, "--stats", stats_path])
